@@ -157,9 +157,9 @@ def handle (stream : String) (args : List String) : String :=
       | .response _ e => s!"response err={b01 e}"
       | .empty => "empty" | .data => "data" | .undecodable => "undecodable" | .indication => "indication"
     | _, _, _ => "bad-hex"
-  | "probe", [tx, h] =>
+  | "probe", [tx, h, same] =>
     match unhex tx, unhex h with
-    | some tx, some b => match probeAccept tx b with
+    | some tx, some b => match probeAccept tx b (same = "1") with
       | some a => s!"some {match a with | .v4 ip p => s!"4,{hex ip},{p}" | .v6 ip p => s!"6,{hex ip},{p}"}"
       | none => "none"
     | _, _ => "bad-hex"
